@@ -19,7 +19,8 @@ RULE = (
     "swaps of two directories, applied to subsets of up to 3 jobs, with and without a persistent cache. An "
     "independent classifier (raw bytes -> strict UTF-8 JSON -> canonical hash vs directory name) decides which jobs "
     "are damaged; check() must name exactly those; open-by-id in fresh sessions (with / without cache file) yields an "
-    "exception or a state point hashing to the id; repair() must restore every recoverable damaged job and leave every "
+    "exception or a state point hashing to the id, through statepoint(), sp and cached_statepoint, each asked again "
+    "after a refusal; repair() must restore every recoverable damaged job and leave every "
     "document / data byte unchanged (tracked by marker files). Non-trivial and distinct = distinct (shape, damage) "
     "pairs that actually changed the parsed value or broke the file."
 )
@@ -170,6 +171,31 @@ def data_by_marker(ws):
     return out
 
 
+def presented_statepoints(job):
+    """Every state point value the handle is willing to present, asked through each accessor and asked again
+    after a refusal: a handle that raised once must not hand out an unvalidated value on the next access."""
+    out = []
+    for rnd in range(2):
+        for how, get in (("statepoint()", lambda: model.plain(job.statepoint())),
+                         ("cached_statepoint", lambda: model.plain(dict(job.cached_statepoint))),
+                         ("sp", lambda: model.plain(dict(job.sp)))):
+            try:
+                out.append((f"{how}#{rnd}", get()))
+            except Exception:
+                pass
+    return out
+
+
+def foreign(values, name):
+    for how, v in values:
+        try:
+            if model.model_id(v) != name:
+                return how, v
+        except Exception:
+            return how, v
+    return None
+
+
 def run_case(ctx, case):
     import signac
     from signac.errors import JobsCorruptedError
@@ -291,18 +317,16 @@ def run_case(ctx, case):
                         job = p2.open_job(id=name)
                     else:
                         job = [j for j in p2 if j.id == name][0]
-                    spv = model.plain(job.statepoint())
-                    csp = model.plain(dict(job.cached_statepoint))
                 except Exception:
                     continue
-                try:
-                    ok = model.model_id(spv) == name and model.model_id(csp) == name
-                except Exception:
-                    ok = False
-                if not ok:
+                vals = presented_statepoints(job)
+                if vals:
+                    ctx.count("statepoints_presented", len(vals))
+                bad = foreign(vals, name)
+                if bad:
                     ctx.violation("corrupted-statepoint-accepted",
                                   "opening a job yielded a state point whose hash differs from its id",
-                                  {"id": name, "statepoint": spv, "cached": csp, "how": how,
+                                  {"id": name, "accessor": bad[0], "statepoint": bad[1], "how": how,
                                    "with_cache_file": root == path, "reason": reason[name]})
     shutil.rmtree(nocache, ignore_errors=True)
 
@@ -381,19 +405,14 @@ def run_case(ctx, case):
         ctx.monitor("open_by_id_never_foreign")
         try:
             job = p3.open_job(id=name)
-            spv = model.plain(job.statepoint())
-            csp = model.plain(dict(job.cached_statepoint))
         except Exception:
             continue
-        try:
-            ok = model.model_id(spv) == name and model.model_id(csp) == name
-        except Exception:
-            ok = False
-        if not ok:
+        bad = foreign(presented_statepoints(job), name)
+        if bad:
             ctx.violation("corrupted-statepoint-accepted-after-repair-and-update_cache",
                           "after repair() and update_cache() in one session, a fresh session is handed a state point whose hash differs from the id",
-                          {"id": name, "statepoint": spv, "reason_before_repair": reason.get(name), "damage": case["damage"],
-                           "cache": case["cache"]})
+                          {"id": name, "accessor": bad[0], "statepoint": bad[1], "reason_before_repair": reason.get(name),
+                           "damage": case["damage"], "cache": case["cache"]})
             return
     ctx.sample({"damage": case["damage"], "cache": case["cache"], "damaged": {n: reason[n] for n in sorted(damaged)},
                 "recoverable": {n: list(v) for n, v in recoverable.items()}})
